@@ -97,6 +97,36 @@ def _occurrences(fn: ast.AST, locals_: set[str]):
         stack.extend(reversed(list(ast.iter_child_nodes(n))))
 
 
+_COMPS = (ast.ListComp, ast.SetComp, ast.DictComp, ast.GeneratorExp)
+
+
+def _canon_comprehension_vars(fn: ast.AST) -> list[str]:
+    """Comprehension variables are local to their comprehension: each gets a positional name `_c<k>` (pre-order), in
+    place, so that a digest does not depend on whether two comprehensions happen to reuse one name.  Returns the
+    original names by position.  A variable that is also a parameter or is used as the comprehension's first
+    iterable keeps its name (renaming it would capture the outer variable)."""
+    params = {a.arg for x in ast.walk(fn) if isinstance(x, ast.arguments) for a in x.posonlyargs + x.args + x.kwonlyargs}
+    names: list[str] = []
+    stack = [fn]
+    while stack:
+        node = stack.pop()
+        if isinstance(node, _COMPS):
+            for gen in node.generators:
+                for t in [x for x in ast.walk(gen.target) if isinstance(x, ast.Name)]:
+                    old = t.id
+                    if old in params or old.startswith("_c") and old[2:].isdigit():
+                        continue
+                    if any(isinstance(x, ast.Name) and x.id == old for x in ast.walk(node.generators[0].iter)):
+                        continue
+                    new = f"_c{len(names)}"
+                    names.append(old)
+                    for x in ast.walk(node):
+                        if isinstance(x, ast.Name) and x.id == old:
+                            x.id = new
+        stack.extend(reversed(list(ast.iter_child_nodes(node))))
+    return names
+
+
 def _alpha(fn: ast.AST):
     """(digest, ordered local names) of the tree as it is.  The tree is restored before returning."""
     locals_ = _unit_locals(fn)
@@ -163,6 +193,14 @@ def _num_const(e: ast.AST) -> bool:
     return isinstance(e, ast.Constant) and isinstance(e.value, (int, float)) and not isinstance(e.value, bool)
 
 
+def _strip_ctx(e: ast.AST) -> ast.AST:
+    e = copy.deepcopy(e)
+    for x in ast.walk(e):
+        if hasattr(x, "ctx"):
+            x.ctx = ast.Load()
+    return e
+
+
 def _count_name(fn: ast.AST, name: str) -> int:
     return sum(1 for x in ast.walk(fn) if (isinstance(x, ast.Name) and x.id == name) or (isinstance(x, ast.Nonlocal) and name in x.names))
 
@@ -208,12 +246,30 @@ class _Normaliser(ast.NodeTransformer):
             i += 1
         return out
 
+    # N6 works on statement lists too: `if c: ...jump  else: B`  ==  `if c: ...jump` followed by B
+    @staticmethod
+    def _ends_with_jump(body: list) -> bool:
+        return bool(body) and isinstance(body[-1], (ast.Return, ast.Raise, ast.Continue, ast.Break))
+
+    def _hoist_else(self, body: list) -> list:
+        out = []
+        for s in body:
+            if isinstance(s, ast.If) and self._ends_with_jump(s.body) and not hasattr(s, "_v"):
+                tail = s.orelse
+                s.orelse = []
+                s._v = ["else", len(tail), getattr(s, "_flip", 0)]
+                out.append(s)
+                out.extend(tail)
+            else:
+                out.append(s)
+        return out
+
     def generic_visit(self, node):
         node = super().generic_visit(node)
         for fld in ("body", "orelse", "finalbody"):
             b = getattr(node, fld, None)
             if isinstance(b, list) and b and isinstance(b[0], ast.stmt):
-                setattr(node, fld, self._merge_temp_returns(b))
+                setattr(node, fld, self._hoist_else(self._merge_temp_returns(b)))
         return node
 
     def visit_AnnAssign(self, n):
@@ -233,8 +289,29 @@ class _Normaliser(ast.NodeTransformer):
             return a
         return n
 
+    def _min_max_if(self, n):
+        """N7: `t = min(t, e)` / `t = max(t, e)`  ->  `if e < t: t = e` / `if t < e: t = e` (t free of calls)"""
+        v = n.value
+        if len(n.targets) == 1 and isinstance(v, ast.Call) and isinstance(v.func, ast.Name) and v.func.id in ("min", "max") and len(v.args) == 2 and not v.keywords:
+            tt = ast.dump(_strip_ctx(n.targets[0]))
+            a, b = v.args
+            other = b if ast.dump(_strip_ctx(a)) == tt else a if ast.dump(_strip_ctx(b)) == tt and v.func.id == "max" and False else None
+            if other is not None and _no_eval_order(n.targets[0]) and _no_eval_order(other):
+                cur = copy.deepcopy(a)
+                test = ast.Compare(left=other, ops=[ast.Lt()], comparators=[cur]) if v.func.id == "min" else ast.Compare(left=cur, ops=[ast.Lt()], comparators=[other])
+                test._v = 0  # a `<` comparison is a variant node (N2) in the if-form as well
+                m = ast.If(test=test, body=[ast.Assign(targets=n.targets, value=copy.deepcopy(other))], orelse=[])
+                ast.copy_location(m, n)
+                ast.fix_missing_locations(m)
+                m._v = ["minmax", 1]
+                return m
+        return None
+
     def visit_Assign(self, n):
         n = self.generic_visit(n)
+        mm = self._min_max_if(n)
+        if mm is not None:
+            return mm
         if len(n.targets) == 1 and isinstance(n.targets[0], ast.Name) and not (isinstance(n.value, ast.BinOp) and isinstance(n.value.left, ast.Name) and n.value.left.id == n.targets[0].id):
             n._v = 0  # could carry an annotation
             return n
@@ -282,14 +359,65 @@ class _Normaliser(ast.NodeTransformer):
                 n._v = 0
         return n
 
+    @staticmethod
+    def _is_min_max_if(n) -> bool:
+        if n.orelse or len(n.body) != 1 or not isinstance(n.body[0], ast.Assign) or len(n.body[0].targets) != 1:
+            return False
+        t = n.test
+        if not (isinstance(t, ast.Compare) and len(t.ops) == 1 and isinstance(t.ops[0], ast.Lt)):
+            return False
+        tgt = ast.dump(_strip_ctx(n.body[0].targets[0]))
+        val = ast.dump(_strip_ctx(n.body[0].value))
+        l, r = ast.dump(_strip_ctx(t.left)), ast.dump(_strip_ctx(t.comparators[0]))
+        return _no_eval_order(n.body[0].targets[0]) and _no_eval_order(n.body[0].value) and ((l == val and r == tgt) or (l == tgt and r == val))
+
     def visit_If(self, n):
         n = self.generic_visit(n)
-        if n.orelse:
-            if isinstance(n.test, ast.UnaryOp) and isinstance(n.test.op, ast.Not):
-                m = ast.copy_location(ast.If(test=n.test.operand, body=n.orelse, orelse=n.body), n)
-                m._v = 1
+        if self._is_min_max_if(n):
+            n._v = ["minmax", 0]
+            return n
+        if n.orelse and isinstance(n.test, ast.UnaryOp) and isinstance(n.test.op, ast.Not):
+            m = ast.copy_location(ast.If(test=n.test.operand, body=n.orelse, orelse=n.body), n)
+            if self._ends_with_jump(m.body):
+                m._flip = 1  # N6 is applied by the enclosing statement list; it records the inversion as well
                 return m
+            m._v = 1
+            return m
+        if self._ends_with_jump(n.body):
+            return n  # N6 (else after a jump) is applied by the enclosing statement list
+        if n.orelse:
             n._v = 0
+        return n
+
+    # N8: {k: c for k in X}  ==  dict.fromkeys(X, c)   (c a number / None / arithmetic over plain names: nothing mutable)
+    @staticmethod
+    def _immutable_value(e: ast.AST, bound: str | None) -> bool:
+        for x in ast.walk(e):
+            if isinstance(x, ast.Name):
+                if x.id == bound:
+                    return False
+            elif isinstance(x, ast.Constant):
+                if isinstance(x.value, (str, bytes)) and False:
+                    return False
+            elif not isinstance(x, (ast.BinOp, ast.UnaryOp, ast.operator, ast.unaryop, ast.expr_context)):
+                return False
+        return True
+
+    def visit_DictComp(self, n):
+        n = self.generic_visit(n)
+        if len(n.generators) == 1 and not n.generators[0].ifs and not n.generators[0].is_async and isinstance(n.generators[0].target, ast.Name) and isinstance(n.key, ast.Name) and n.key.id == n.generators[0].target.id and self._immutable_value(n.value, n.key.id):
+            n._v = ["fromkeys", 0]
+        return n
+
+    def visit_Call(self, n):
+        n = self.generic_visit(n)
+        if isinstance(n.func, ast.Attribute) and n.func.attr == "fromkeys" and isinstance(n.func.value, ast.Name) and n.func.value.id == "dict" and len(n.args) == 2 and not n.keywords and self._immutable_value(n.args[1], None):
+            k = "_k"
+            m = ast.DictComp(key=ast.Name(id=k, ctx=ast.Load()), value=n.args[1], generators=[ast.comprehension(target=ast.Name(id=k, ctx=ast.Store()), iter=n.args[0], ifs=[], is_async=0)])
+            ast.copy_location(m, n)
+            ast.fix_missing_locations(m)
+            m._v = ["fromkeys", 1]
+            return m
         return n
 
     def visit_BinOp(self, n):
@@ -334,6 +462,7 @@ def normal_form(fn: ast.AST):
     nz = _Normaliser(nf)
     nf = nz.visit(nf)
     ast.fix_missing_locations(nf)
+    nf._comp_names = _canon_comprehension_vars(nf)
     dig, order = _alpha(nf)
     variants = [n._v for n in _variant_nodes(nf)]
     return nf, dig, order, variants
@@ -358,7 +487,26 @@ class _Restorer(ast.NodeTransformer):
                 setattr(node, fld, nb)
         return node
 
+    def _renest(self, node):
+        """N6, top-down: an `if` whose baseline surface had its tail in an `else` takes the next k statements back"""
+        for fld in ("body", "orelse", "finalbody"):
+            b = getattr(node, fld, None)
+            if not (isinstance(b, list) and b and isinstance(b[0], ast.stmt)):
+                continue
+            out, i = [], 0
+            while i < len(b):
+                s = b[i]
+                v = self.want.get(id(s))
+                if isinstance(s, ast.If) and isinstance(v, list) and v and v[0] == "else" and v[1] > 0 and not s.orelse:
+                    s.orelse = b[i + 1 : i + 1 + v[1]]
+                    i += 1 + v[1]
+                else:
+                    i += 1
+                out.append(s)
+            setattr(node, fld, out)
+
     def generic_visit(self, node):
+        self._renest(node)
         node = super().generic_visit(node)
         return self._blocks(node)
 
@@ -395,8 +543,14 @@ class _Restorer(ast.NodeTransformer):
     def visit_If(self, n):
         v = self.want.get(id(n), 0)
         n = self.generic_visit(n)
-        if v == 1:
+        if v == 1 or (isinstance(v, list) and v and v[0] == "else" and len(v) > 2 and v[2] == 1 and n.orelse):
             return ast.copy_location(ast.If(test=ast.UnaryOp(op=ast.Not(), operand=n.test), body=n.orelse, orelse=n.body), n)
+        if isinstance(v, list) and v and v[0] == "minmax" and v[1] == 1:
+            a = n.body[0]
+            tgt = ast.dump(_strip_ctx(a.targets[0]))
+            fn = "min" if ast.dump(_strip_ctx(n.test.comparators[0])) == tgt else "max"
+            call = ast.Call(func=ast.Name(id=fn, ctx=ast.Load()), args=[_strip_ctx(a.targets[0]), a.value], keywords=[])
+            return ast.copy_location(ast.Assign(targets=a.targets, value=call), n)
         return n
 
     def visit_BinOp(self, n):
@@ -404,6 +558,13 @@ class _Restorer(ast.NodeTransformer):
         n = self.generic_visit(n)
         if v == 1:
             return ast.copy_location(ast.BinOp(left=n.right, op=n.op, right=n.left), n)
+        return n
+
+    def visit_DictComp(self, n):
+        v = self.want.get(id(n), 0)
+        n = self.generic_visit(n)
+        if isinstance(v, list) and v and v[0] == "fromkeys" and v[1] == 1:
+            return ast.copy_location(ast.Call(func=ast.Attribute(value=ast.Name(id="dict", ctx=ast.Load()), attr="fromkeys", ctx=ast.Load()), args=[n.generators[0].iter, n.value], keywords=[]), n)
         return n
 
 
@@ -461,6 +622,15 @@ def baseline() -> dict:
     return _BASELINE
 
 
+def _restore_comp_names(nf: ast.AST, comp_names) -> None:
+    """`_c<k>` -> the name the baseline gives its k-th comprehension variable"""
+    if not comp_names:
+        return
+    for x in ast.walk(nf):
+        if isinstance(x, ast.Name) and x.id.startswith("_c") and x.id[2:].isdigit() and int(x.id[2:]) < len(comp_names):
+            x.id = comp_names[int(x.id[2:])]
+
+
 def derename(rel: str, tree: ast.Module) -> list[str]:
     """Rewrite units that equal their baseline up to surface edits into the baseline's surface form, in place.
     Returns the list of units rewritten."""
@@ -475,7 +645,7 @@ def derename(rel: str, tree: ast.Module) -> list[str]:
         nf, dig, order, variants = normal_form(fn)
         if dig != b["skeleton"] or len(order) != len(b["names"]) or len(variants) != len(b.get("variants", [])):
             continue
-        if order == b["names"] and variants == b["variants"]:
+        if order == b["names"] and variants == b["variants"] and nf._comp_names == b.get("comp_names", nf._comp_names):
             continue
         # 1. surface variants of the baseline
         nodes = _variant_nodes(nf)
@@ -493,6 +663,7 @@ def derename(rel: str, tree: ast.Module) -> list[str]:
                 if cur in temps and cur not in mapping:
                     continue
                 setattr(n, attr, mapping.get(cur, cur))
+        _restore_comp_names(nf, b.get("comp_names"))
         ast.fix_missing_locations(nf)
         # keep the function's own docstring, annotations and decorators; take body and parameter names of the restored form
         doc = [fn.body[0]] if fn.body and isinstance(fn.body[0], ast.Expr) and isinstance(fn.body[0].value, ast.Constant) and isinstance(fn.body[0].value.value, str) and len(fn.body) > 1 else []
@@ -509,7 +680,7 @@ def derename(rel: str, tree: ast.Module) -> list[str]:
         nf, dig, order, variants = normal_form(_wrap(stmt))
         if dig != b["skeleton"] or len(order) != len(b["names"]) or len(variants) != len(b.get("variants", [])):
             continue
-        if order == b["names"] and variants == b["variants"]:
+        if order == b["names"] and variants == b["variants"] and nf._comp_names == b.get("comp_names", nf._comp_names):
             continue
         # the assigned name itself is not a local of the pseudo unit's caller: keep it
         nodes = _variant_nodes(nf)
@@ -518,6 +689,7 @@ def derename(rel: str, tree: ast.Module) -> list[str]:
         for n, attr in list(_occurrences(nf, set(order))):
             if attr != "names":
                 setattr(n, attr, mapping.get(getattr(n, attr), getattr(n, attr)))
+        _restore_comp_names(nf, b.get("comp_names"))
         ast.fix_missing_locations(nf)
         if len(nf.body) == 1:
             tree.body[i] = nf.body[0]
@@ -538,9 +710,9 @@ def build_baseline(root: str, package: str = "solvor") -> dict:
             with open(p, encoding="utf-8") as fh:
                 tree = ast.parse(fh.read())
             for q, fn in units(tree):
-                _, dig, order, variants = normal_form(fn)
-                out[f"{rel}::{q}"] = {"skeleton": dig, "names": order, "variants": variants, "raw": _raw(fn), "closures": sorted(x.name for x in fn.body if isinstance(x, (ast.FunctionDef, ast.AsyncFunctionDef)))}
+                nf_, dig, order, variants = normal_form(fn)
+                out[f"{rel}::{q}"] = {"skeleton": dig, "names": order, "variants": variants, "raw": _raw(fn), "comp_names": nf_._comp_names, "closures": sorted(x.name for x in fn.body if isinstance(x, (ast.FunctionDef, ast.AsyncFunctionDef)))}
             for q, _i, stmt in module_units(tree):
-                _, dig, order, variants = normal_form(_wrap(stmt))
-                out[f"{rel}::{q}"] = {"skeleton": dig, "names": order, "variants": variants, "raw": _raw(stmt)}
+                nf_, dig, order, variants = normal_form(_wrap(stmt))
+                out[f"{rel}::{q}"] = {"skeleton": dig, "names": order, "variants": variants, "raw": _raw(stmt), "comp_names": nf_._comp_names}
     return out
